@@ -45,6 +45,25 @@ Example C01_parse_len_only_nonvacuous :
 Proof. exact parse_len_only_nonvacuous. Qed.
 Print Assumptions C01_parse_len_only_nonvacuous.
 
+(* the two side outputs Parse produces besides its return value are covered: the echo id handed to echoNotify
+   (condition as repaired by b8d5cb8 / 790e257 / b261543) and the key handed to the host table *)
+Theorem C01_side_outputs_len_only : forall c s s' f f',
+  wf s -> wf s' -> len s = len s' -> view s = view s' -> parse c s = Ok f -> parse c s' = Ok f' ->
+  f_echo f = f_echo f' /\ f_host f = f_host f'.
+Proof. exact parse_side_outputs_len_only. Qed.
+Print Assumptions C01_side_outputs_len_only.
+
+Example C01_echo_examples :
+  option_map f_echo (match parse cfg1 (of_bytes ex_echo4) with Ok f => Some f | _ => None end) = Some (Some 4660) /\
+  option_map f_echo (match parse cfg1 (of_bytes (set_b 14 85 ex_echo4)) with Ok f => Some f | _ => None end) = Some None /\
+  option_map f_echo (match parse cfg1 (of_bytes (set_b 17 27 ex_echo4)) with Ok f => Some f | _ => None end) = Some None /\
+  option_map f_echo (match parse cfg1 (of_bytes (set_b 34 8 ex_echo4)) with Ok f => Some f | _ => None end) = Some None /\
+  option_map (fun f => (f_id f, f_echo f))
+    (match parse cfg1 (of_bytes (set_b 34 129 (set_b 23 58 ex_echo4))) with Ok f => Some f | _ => None end)
+  = Some (PayloadICMP6, None).
+Proof. exact echo_examples. Qed.
+Print Assumptions C01_echo_examples.
+
 Example C01_former_capacity_witness :
   parse cfg0 (of_bytes_cap w_arp31 [1]) = Err EParseFrame /\ parse cfg0 (of_bytes w_arp31) = Err EParseFrame.
 Proof. exact parse_arp31_fixed. Qed.
